@@ -2,6 +2,7 @@
    (SequenceSet.parse/_parse_part, __bytes__, _get_range/iter/flatten, build).
    Definitions only. *)
 From PV Require Import Base.Prelude Base.Decimal.
+From PV Require Export Wire.Lex.
 
 Inductive sidx := SNum (n : N) | SMax.                 (* int | MaxValue *)
 Inductive selem := SOne (i : sidx) | SRange (a b : sidx).
@@ -17,10 +18,6 @@ Definition selem_eqb (a b : selem) : bool :=
   | _, _ => false end.
 
 Definition STAR : N := 42. Definition COLON : N := 58. Definition COMMA : N := 44.
-Definition SP : N := 32.
-
-Fixpoint skip_spaces (b : bytes) : bytes :=
-  match b with c :: r => if (c =? SP)%N then skip_spaces r else b | [] => [] end.
 
 (* one index: '*' or [1-9]\d* *)
 Definition parse_idx (b : bytes) : option (sidx * bytes) :=
